@@ -78,7 +78,13 @@ def env_json(env):
 
 
 def case(syn, src, env=None):
-    return {'syn': syn, 'src': cps(src), 'bad': [cps(b) for b in bad_exprs(src)], 'env': env_json(env)}
+    return case_multi([(syn, src)], env, False)
+
+
+def case_multi(spellings, env=None, same=True):
+    """one abstract template in several spellings: the machine compiles each and (same) demands one program"""
+    return {'srcs': [{'syn': syn, 'src': cps(src), 'bad': [cps(b) for b in bad_exprs(src)]} for syn, src in spellings],
+            'env': env_json(env), 'same': same}
 
 
 class Obj:
@@ -197,6 +203,10 @@ def _ref_ne(name, expr):
     return {'k': 'expr', 'src': ev.expr}
 
 
+def _sans_ref(args):
+    return {k: v for k, v in args.items() if k not in ('', 'name', 'expr')}
+
+
 def normalise(blocks):
     from DocumentTemplate import DT_In, DT_Let, DT_Raise, DT_Return, DT_Try, DT_Var, DT_With
     from TreeDisplay.TreeTag import Tree
@@ -219,11 +229,11 @@ def normalise(blocks):
                 out.append({'t': 'if', 'conds': [_ref(c) for c in rest[0::2]],
                             'bodies': [normalise(x) for x in rest[1::2]], 'else': els})
         elif isinstance(b, DT_Var.Var):
-            out.append({'t': 'var', 'ref': _ref_ne(b.__name__, b.expr), 'args': dict(b.args), 'fmt': b.fmt})
+            out.append({'t': 'var', 'ref': _ref_ne(b.__name__, b.expr), 'args': _sans_ref(b.args), 'fmt': b.fmt})
         elif isinstance(getattr(b, '__self__', None), DT_In.InClass):
             i = b.__self__
             out.append({'t': 'in', 'batch': b.__func__ is DT_In.InClass.renderwb, 'ref': _ref_ne(i.__name__, i.expr),
-                        'args': dict(i.args), 'body': normalise(i.section),
+                        'args': _sans_ref(i.args), 'body': normalise(i.section),
                         'else': [normalise(i.elses)] if i.elses is not None else []})
         elif isinstance(b, DT_With.With):
             out.append({'t': 'with', 'ref': _ref(b.expr), 'body': normalise(b.section),
